@@ -59,7 +59,7 @@ func TestVerifReplay(t *testing.T) {
 		}
 	}
 	gen(nil, 2)
-	pipelines = append(pipelines, []string{"ok+input", "ok", "ok+creds"}, []string{"ok+creds", "ok", "ok+input"}, []string{"ok", "ok", "fatal-no-message"}, []string{"ok", "error", "ok"})
+	pipelines = append(pipelines, []string{"ok+input", "ok", "ok+creds"}, []string{"ok+creds", "ok", "ok+input"}, []string{"ok", "ok", "fatal-no-message"}, []string{"ok", "error", "ok"}, []string{"ok", "ok-no-context", "ok"})
 	faults := []string{"none", "conflict@update", "error@delete", "error@patch-xr", "error@patch-composed", "invalid@patch-composed"}
 	n := 0
 	for _, pl := range pipelines {
